@@ -1002,6 +1002,75 @@ def compare_pystr(rng: random.Random, n: int, res: Result, st: Optional[LeanStat
             res.mismatches.append(Mismatch("pystr." + fn, {"text": t}, want, got))
 
 
+def gql_tokens(text: str) -> Optional[List[List[str]]]:
+    """graphql-core's own lexer: [kind, lexeme] per token (string tokens by their RAW source slice); None when
+    the text does not lex or contains a block string"""
+    from graphql import GraphQLError
+    from graphql.language import Lexer, Source, TokenKind
+
+    out: List[List[str]] = []
+    try:
+        lexer = Lexer(Source(text))
+        while True:
+            tok = lexer.advance()
+            if tok.kind == TokenKind.EOF:
+                return out
+            if tok.kind == TokenKind.BLOCK_STRING:
+                return None
+            if tok.kind == TokenKind.STRING:
+                out.append(["str", text[tok.start + 1 : tok.end - 1]])
+            elif tok.kind == TokenKind.NAME:
+                out.append(["name", tok.value])
+            elif tok.kind in (TokenKind.INT, TokenKind.FLOAT):
+                out.append(["num", tok.value])
+            else:
+                out.append(["punct", tok.kind.value])
+    except (GraphQLError, IndexError, ValueError):  # graphql-core's lexer indexes past the end on a truncated \u escape
+        return None
+
+
+LEX_PIECES = ["query", "Q", "{", "}", "(", ")", ":", "$v", "@dir", "...", "...F", "[", "]", "!", "=", "|", "&", "123", "-4", "1.5", "2e10",
+              "-0.5E-3", "0", '"str"', '"a\\"b"', '"\\\\"', '"\u00e9 #x"', '""', "# comment , x \"q", ",", "name_1", "__typename", "\ufeff", "on",
+              '"\\u00e9\\t"', '"a b"', "e", "E1", "_", '"{ } ..."', '"\U0001f600"']
+
+
+def gen_token_text(rng: random.Random) -> str:
+    lines = []
+    for _ in range(rng.randint(2, 5)):
+        line = "  " * rng.randint(0, 3)
+        for _ in range(rng.randint(0, 7)):
+            piece = rng.choice(LEX_PIECES)
+            line += piece + ("\n" if piece.startswith("#") else rng.choice([" ", " ", "  ", ", ", "\t", ""]))
+        lines.append(line)
+    return "\n".join(lines)
+
+
+def compare_lexer(texts: List[str], res: Result, st: Optional[LeanStatus]) -> None:
+    """Spec/GqlLex.lean vs graphql-core's lexer, on the text and on its re-indentation (indent_invariant on the real lexer)"""
+    if st is None or not st.driver_ok:
+        return
+    todo = []
+    for q in texts:
+        want = gql_tokens(q)
+        if want is None:
+            res.count("lex:text does not lex in graphql-core / block string (skipped)")
+            continue
+        todo.append((q, want))
+    outs = common.run_driver(PROP, [{"op": "lex", "text": cps(q)} for q, _ in todo]) if todo else []
+    for (q, want), o in zip(todo, outs):
+        res.count("lex:texts")
+        res.seen(["lex", q], nontrivial=len(want) > 3)
+        got = [[k, uncps(v)] for k, v in o]
+        if got != want:
+            res.mismatches.append(Mismatch("lex.tokens", {"text": q}, want, got))
+            continue
+        if text_trigger(q) is None:
+            for k in (12, 0):
+                if gql_tokens(expected_sent(k, q)) != want:
+                    res.failures.append(Failure("reindentation-changes-tokens", None, {"text": q, "variant": "client" if k else "extract"},
+                                                f"graphql-core lexes the re-indented text (k={k}) differently"))
+
+
 # --------------------------------------------------------------------------------------------
 # running cases
 # --------------------------------------------------------------------------------------------
@@ -1221,6 +1290,15 @@ def run(ctx: Ctx, st: Optional[LeanStatus]) -> Result:
     ctx.log(f"embedding correspondence on {len(texts)} operation texts")
     compare_embed(texts, res, st)
     compare_pystr(ctx.sub_rng("pystr"), ctx.budget(5000, 40000), res, st)
+    printed: List[str] = list(REAL_TEXTS)
+    for c in cases[: ctx.budget(120, 700)]:
+        try:
+            auth = Authored(c["sdl"], c["queries"])
+            printed += [auth.printed(op) for op in auth.ops]
+        except Exception:  # noqa: BLE001 - not an input
+            continue
+    lrng = ctx.sub_rng("lex")
+    compare_lexer(printed + [t for t, _, _ in texts[: ctx.budget(300, 1500)]] + [gen_token_text(lrng) for _ in range(ctx.budget(600, 4000))], res, st)
     # oracle through the real generated client
     orng = ctx.sub_rng("oracle")
     n = ctx.budget(40, 220)
@@ -1243,7 +1321,8 @@ def run(ctx: Ctx, st: Optional[LeanStatus]) -> Result:
         "graphql-core print_ast / parse (the model's output is the document that is printed; the real string is parsed back)",
         "black, isort, autoflake on the emitted module (observed through the real ast_to_str; the model covers unparse + the regex rewriter on safe texts)",
         "the regex `.*?=.*?('.*?'\\s*){2,}` locating the statement (on safe texts it matches the whole assignment; validated by the embedding correspondence)",
-        "re-indentation does not change the GraphQL parse (indent_invariant is not proved): validated by parse(sent) == authored in the oracle",
+        "re-indentation does not change the GraphQL parse: proved at token level over the reference lexer Spec/GqlLex.lean (validated against graphql-core's Lexer, "
+        "also on the re-indented texts); at AST level observed by parse(sent) == authored in the oracle",
     ]
     res.assumptions += [
         "str.isprintable of the non-ASCII characters of a text is an environment parameter of the model (supplied per text by the harness); "
